@@ -11,7 +11,8 @@ package main
 //        unlockraw K X              Unlock(K, "bogus-X")
 //        unlockx S K                Unlock(K, id_S) with S a caller of another key (foreign but genuine id)
 //        expire S                   let S's TTL watchdog (short TTL, stopped at the hook) call remove
-//        gwttl T | gwcancel         gateway Lock/Unlock handlers (TTL floor, WithoutCancel)
+//        gwttl T… | gwcancel        gateway Lock/Unlock handlers (TTL floor and clamp, WithoutCancel)
+//        lock K zero|neg|min         a TTL ≤ 0: the watchdog fires at once (treated like `short`)
 // reply: <event> q=[S…] g=[S…] h=[S…]   queue, callers whose ready channel is closed, callers that
 //                                   acquired and are still queued (all as caller numbers, from the
 //                                   verif accessor — never from hook arguments)
@@ -57,6 +58,7 @@ type c14Sess struct {
 	gone      bool // Lock returned an error (cancel branch)
 	expired   bool // `expire` already used
 	released  bool // C28: the caller's own unlock / TTL took it out of the queue
+	errored   bool // Lock returned an error (written before fin is closed)
 	hold      chan struct{}
 	fin       chan struct{} // closed when the Lock call has returned
 }
@@ -208,6 +210,44 @@ func (w *c14World) quiet(want func(c14Event) bool, d time.Duration) bool {
 	}
 }
 
+// waitAcq: a granted caller either reports `lock.acq` or its Lock call returns an error.
+func (w *c14World) waitAcq(s *c14Sess) string {
+	me := strconv.Itoa(s.n)
+	ev, ok := w.wait(func(e c14Event) bool {
+		return (e.name == "lock.acq" && e.id == s.qid) || (e.name == "sess.err" && e.raw == me)
+	})
+	switch {
+	case !ok:
+		return "unexpected-" + ev.name
+	case ev.name == "sess.err":
+		s.gone = true
+		w.returned(s)
+		return "err"
+	}
+	s.acquired = true
+	return "acq"
+}
+
+// residual: callers still in key's queue although their Lock call has returned an error.
+func (w *c14World) residual(key string) []string {
+	ids, _, _ := lock.VerifSnapshot(w.lk, key)
+	var e []string
+	for _, id := range ids {
+		s := w.byKey[key+"|"+id]
+		if s == nil {
+			continue
+		}
+		select {
+		case <-s.fin:
+			if s.errored {
+				e = append(e, strconv.Itoa(s.n))
+			}
+		default:
+		}
+	}
+	return e
+}
+
 func (w *c14World) waitFor(name, id string) (c14Event, bool) {
 	return w.wait(func(e c14Event) bool { return e.name == name && e.id == id })
 }
@@ -258,7 +298,8 @@ func (w *c14World) state(key string) string {
 			h = append(h, w.num(key, id))
 		}
 	}
-	return fmt.Sprintf("q=[%s] g=[%s] h=[%s]", strings.Join(q, ","), strings.Join(g, ","), strings.Join(h, ","))
+	return fmt.Sprintf("q=[%s] g=[%s] h=[%s] e=[%s]", strings.Join(q, ","), strings.Join(g, ","), strings.Join(h, ","),
+		strings.Join(w.residual(key), ","))
 }
 
 // settle: after a removal, a granted caller that is parked in its select takes the ready branch.
@@ -269,10 +310,9 @@ func (w *c14World) settle(key string) string {
 		if s == nil || !ready[i] || s.acquired || s.held || s.gone {
 			continue
 		}
-		if _, ok := w.waitFor("lock.acq", s.qid); !ok {
-			return " stuck=" + strconv.Itoa(s.n)
+		if r := w.waitAcq(s); r != "acq" {
+			return " stuck=" + strconv.Itoa(s.n) + ":" + r
 		}
-		s.acquired = true
 	}
 	return ""
 }
@@ -293,7 +333,10 @@ func (w *c14World) startLock(key string, ttl time.Duration, short, hold bool) (*
 			}
 		}()
 		defer close(s.fin)
-		_, _ = w.lk.Lock(ctx, key, ttl)
+		if _, err := w.lk.Lock(ctx, key, ttl); err != nil {
+			s.errored = true
+			w.events <- c14Event{name: "sess.err", raw: strconv.Itoa(s.n)}
+		}
 	}()
 	ev, ok := w.wait(func(e c14Event) bool { return e.name == "lock.enq" })
 	if !ok {
@@ -317,11 +360,7 @@ func (w *c14World) startLock(key string, ttl time.Duration, short, hold bool) (*
 		s.held = true
 		return s, "held"
 	case granted:
-		if ev, ok = w.waitFor("lock.acq", s.qid); !ok {
-			return s, "unexpected-" + ev.name
-		}
-		s.acquired = true
-		return s, "acq"
+		return s, w.waitAcq(s)
 	}
 	return s, "wait"
 }
@@ -353,7 +392,10 @@ func (w *c14World) startLockAtGotq(key string, ttl time.Duration, short bool) (*
 	go func() {
 		defer w.wg.Done()
 		defer close(s.fin)
-		_, _ = w.lk.Lock(ctx, key, ttl)
+		if _, err := w.lk.Lock(ctx, key, ttl); err != nil {
+			s.errored = true
+			w.events <- c14Event{name: "sess.err", raw: strconv.Itoa(s.n)}
+		}
 	}()
 	ev, ok := w.wait(func(e c14Event) bool { return e.name == "lock.gotq" })
 	if !ok {
@@ -381,11 +423,7 @@ func (w *c14World) continueFromGotq(s *c14Sess) string {
 	ids, ready, _ := lock.VerifSnapshot(w.lk, s.key)
 	for i, id := range ids {
 		if id == s.id && ready[i] {
-			if ev, ok = w.waitFor("lock.acq", s.qid); !ok {
-				return "unexpected-" + ev.name
-			}
-			s.acquired = true
-			return "acq"
+			return w.waitAcq(s)
 		}
 	}
 	return "wait"
@@ -492,10 +530,14 @@ func genC14(rng *rand.Rand, tier string, w *bufio.Writer) {
 		fmt.Fprintf(w, "case %d\nlock a long\nlock a long hold\nlock a long\ncancel 2\nunlock 1\ngo 2\nunlock 2\nunlock 3\n", 2+i)
 	}
 	fmt.Fprintln(w, "case 6\nlock a long\nlock a long hold\nlock a long\ncancel 2\ngo 2\nunlock 1\nlock b long hold\ncancel 4\nlock b long\ngo 4")
-	fmt.Fprintln(w, "case 7\ngwttl -3\ngwttl 1000\ngwttl 2000\ngwcancel")
+	fmt.Fprintln(w, "case 7\ngwttl -3 -9223372036854775808 1000 2000 9223372036854 9223372036855 9300000000000 9223372036854775807\ngwcancel")
 	// ids issued on one key used on another: holder and waiter of b must be untouched by a's ids
-	fmt.Fprintln(w, "case 8\nlock a long\nlock b long\nlock b long\nlock a long\nunlockx 1 b\nunlockx 2 a\nunlock 1\nunlockx 4 b\nunlock 2\nunlock 3\nunlock 4")
-	for c := 9; c < cases; c++ {
+	// pre-cancelled contexts on a FREE key (granted head + ctx.Done both ready: either branch must
+	// leave a consistent queue), repeated on the same key; zero / negative / MinInt64 TTLs
+	fmt.Fprintln(w, "case 8\nlock a long hold\ncancel 1\ngo 1\nlock a long hold\ncancel 2\ngo 2\nlock a long hold\ncancel 3\ngo 3\nlock a long hold\ncancel 4\ngo 4\nlock a long\nunlock 1\nunlock 2\nunlock 3\nunlock 4\nunlock 5\nlock a long")
+	fmt.Fprintln(w, "case 9\nlock a zero\nlock a long\nexpire 1\nlock b neg\nexpire 3\nlock b min\nexpire 4\nlock b long\nunlock 2\nlock a neg hold\ngo 6\nexpire 6")
+	fmt.Fprintln(w, "case 10\nlock a long\nlock b long\nlock b long\nlock a long\nunlockx 1 b\nunlockx 2 a\nunlock 1\nunlockx 4 b\nunlock 2\nunlock 3\nunlock 4")
+	for c := 11; c < cases; c++ {
 		fmt.Fprintf(w, "case %d\n", c)
 		n := 4 + rng.Intn(maxLen)
 		sessions := 0
@@ -532,7 +574,7 @@ func genC14(rng *rand.Rand, tier string, w *bufio.Writer) {
 				ttl := "long"
 				sessions++
 				if rng.Intn(4) == 0 {
-					ttl = "short"
+					ttl = []string{"short", "short", "zero", "neg", "min"}[rng.Intn(5)]
 					short = append(short, sessions)
 				}
 				hold := ""
@@ -543,6 +585,11 @@ func genC14(rng *rand.Rand, tier string, w *bufio.Writer) {
 				live = append(live, sessions)
 				keyOf[sessions] = key
 				fmt.Fprintf(w, "lock %s %s%s\n", key, ttl, hold)
+				if hold != "" && rng.Intn(3) == 0 {
+					// a context that is already cancelled when the caller reaches its select
+					fmt.Fprintf(w, "cancel %d\n", sessions)
+					i++
+				}
 			case r < 56:
 				// bias towards the oldest live callers: they are the holders; sometimes stale ones
 				s := from(live)
@@ -621,8 +668,15 @@ func runC14(in *bufio.Scanner, out *bufio.Writer) {
 				break
 			}
 			ttl, short := time.Hour, false
-			if f[2] == "short" {
+			switch f[2] {
+			case "short":
 				ttl, short = 3*time.Millisecond, true
+			case "zero": // a TTL of zero or less: the watchdog's timer fires at once
+				ttl, short = 0, true
+			case "neg":
+				ttl, short = -time.Millisecond, true
+			case "min":
+				ttl, short = time.Duration(-1<<63), true
 			}
 			s, res := w.startLock(f[1], ttl, short, len(f) > 3 && f[3] == "hold")
 			fmt.Fprintf(out, "enq %d %s %s\n", s.n, res, w.state(f[1]))
@@ -643,12 +697,17 @@ func runC14(in *bufio.Scanner, out *bufio.Writer) {
 			w.release(w.holds, s.qid)
 			res := "wait"
 			if granted || s.cancelled {
+				me := strconv.Itoa(s.n)
 				ev, ok := w.wait(func(e c14Event) bool {
-					return e.id == s.qid && (e.name == "lock.acq" || e.name == "lock.cancel")
+					return (e.id == s.qid && (e.name == "lock.acq" || e.name == "lock.cancel")) || (e.name == "sess.err" && e.raw == me)
 				})
 				switch {
 				case !ok:
 					res = "unexpected-" + ev.name
+				case ev.name == "sess.err":
+					res = "err"
+					s.gone = true
+					w.returned(s)
 				case ev.name == "lock.acq":
 					s.acquired = true
 					res = "acq"
@@ -768,31 +827,70 @@ func c14Gateway(f []string, install func(*c14World)) string {
 	install(w)
 	switch f[0] {
 	case "gwttl":
-		if len(f) != 2 {
+		// gwttl T1 T2 …: one Lock RPC per TTL (distinct keys), all watchdogs run side by side; each
+		// is stopped at the lock.ttl hook when its timer fires.  eff = observed life time in whole
+		// seconds (rounded down: a timer only fires late), `gt3000` = still held after 3 s.
+		if len(f) < 2 {
 			return "bad-op"
 		}
-		ttl, err := strconv.ParseInt(f[1], 10, 64)
-		if err != nil {
-			return "bad-op"
+		type one struct {
+			txt string
+			id  string
+			at  time.Time
+			res string
 		}
-		key := fmt.Sprintf("gwttl-%d-%d", ttl, time.Now().UnixNano())
-		resp, err := gw.Lock(context.Background(), &hydrapb.LockRequest{Key: key, TTL: ttl})
-		if err != nil || resp == nil {
-			return "gwttl " + f[1] + " lock-error"
+		var all []*one
+		for i, t := range f[1:] {
+			ttl, err := strconv.ParseInt(t, 10, 64)
+			if err != nil {
+				return "bad-op"
+			}
+			o := &one{txt: t}
+			all = append(all, o)
+			key := fmt.Sprintf("gwttl-%d-%d-%d", i, ttl, time.Now().UnixNano())
+			resp, err := gw.Lock(context.Background(), &hydrapb.LockRequest{Key: key, TTL: ttl})
+			if err != nil || resp == nil {
+				o.res = "lock-error"
+				if ids, _, _ := lock.VerifSnapshot(w.lk, key); len(ids) > 0 {
+					o.res = "lock-error-residual"
+				}
+				continue
+			}
+			acq, ok := w.waitForRaw("lock.acq", resp.LockID)
+			if !ok {
+				o.res = "no-acq"
+				continue
+			}
+			o.id, o.at = acq.id, acq.at
 		}
-		acq, ok := w.waitForRaw("lock.acq", resp.LockID)
-		if !ok {
-			return "gwttl " + f[1] + " no-acq"
+		deadline := time.Now().Add(3 * time.Second)
+		for {
+			pending := false
+			w.mu.Lock()
+			for _, o := range all {
+				if o.res != "" {
+					continue
+				}
+				if at, ok := w.ttlAt[o.id]; ok {
+					o.res = fmt.Sprintf("eff=%d", at.Sub(o.at).Milliseconds()/1000*1000)
+				} else {
+					pending = true
+				}
+			}
+			w.mu.Unlock()
+			if !pending || time.Now().After(deadline) {
+				break
+			}
+			time.Sleep(time.Millisecond)
 		}
-		fired, ok := w.waitTTL(acq.id)
-		if !ok {
-			return "gwttl " + f[1] + " eff=gt4000"
+		out := "gwttl"
+		for _, o := range all {
+			if o.res == "" {
+				o.res = "eff=gt3000"
+			}
+			out += " " + o.txt + ":" + o.res
 		}
-		w.release(w.ttlWait, acq.id)
-		w.waitFor("lock.rm", acq.id)
-		ms := fired.Sub(acq.at).Milliseconds()
-		// whole seconds, rounded down: the timer can only fire late, and up to 999 ms of lag are tolerated
-		return fmt.Sprintf("gwttl %s eff=%d", f[1], ms/1000*1000)
+		return out
 	case "gwcancel":
 		key := fmt.Sprintf("gwcancel-%d", time.Now().UnixNano())
 		first, err := gw.Lock(context.Background(), &hydrapb.LockRequest{Key: key, TTL: 60000})
